@@ -11,13 +11,38 @@ import (
 // counts as event E if it IS the primitive, or if its static callee passes through E on every
 // success path (bounded depth).
 
-func evSync(in ssa.Instruction) bool {
+// evSyncPrim: an interface invoke of Sync() error (storage.Writer / storage.Syncer or any
+// interface with that method: a helper may narrow the type).
+func evSyncPrim(in ssa.Instruction) bool {
 	cc := callCommon(in)
 	if cc == nil || !cc.IsInvoke() || cc.Method.Name() != "Sync" {
 		return false
 	}
-	n := namedOf(cc.Value.Type())
-	return n == "leveldb/storage.Writer" || n == "leveldb/storage.Syncer"
+	sig := cc.Signature()
+	return sig.Params().Len() == 0 && sig.Results().Len() == 1 && isErrorType(sig.Results().At(0).Type())
+}
+
+var syncLift = newMust(evSyncPrim, nil)
+
+// evSync: the sync primitive, or a call to a repository function that syncs on every success path.
+func evSync(in ssa.Instruction) bool { return syncLift.pred(2)(in) }
+
+// mErrOfPred: the value is the error result of a call instruction satisfying pred.
+func mErrOfPred(pred InstrPred) VMatch {
+	return func(v ssa.Value) bool {
+		v = stripConv(v)
+		if !isErrorType(v.Type()) {
+			return false
+		}
+		switch x := v.(type) {
+		case *ssa.Call:
+			return pred(x)
+		case *ssa.Extract:
+			c, ok := x.Tuple.(*ssa.Call)
+			return ok && pred(c)
+		}
+		return false
+	}
 }
 
 func evStorageInvoke(method string) InstrPred {
